@@ -29,6 +29,11 @@ def main():
     with ThreadPoolExecutor(max_workers=os.cpu_count() or 8) as ex:
         errs = [e for e in ex.map(comp, list(firsts.values())) if e]
         errs += [e for e in ex.map(comp, sorted(todo)) if e]
+    for t in ("fz_c11", "fz_c13", "fz_c14"):
+        try:
+            build.compile_fuzz_target(t)
+        except Exception as e:
+            errs.append("%s: %s" % (t, e))
     for e in errs:
         print("setup error:", e, file=sys.stderr)
     print("setup: %d library configs, %d harness executables" % (len(build.CONFIGS), len(todo)))
